@@ -278,6 +278,8 @@ fn part_a(case: &Case, dir: &str, rng: &mut Rng) -> (Option<String>, Option<(Str
         _ => return (None, None, 0),
     };
     let mut viol = None;
+    // one long-lived searcher answers every query as well (its position cache is carried from query to query)
+    let long_lived = searcher(dir);
     // ---- query grid: every (begin, end) pair over the written seconds +-1, a few resources
     let mut points: Vec<u64> = secs.clone();
     points.push(lo.saturating_sub(1));
@@ -314,6 +316,27 @@ fn part_a(case: &Case, dir: &str, rng: &mut Rng) -> (Option<String>, Option<(Str
                     ));
                     break 'q;
                 }
+                queries += 1;
+                let got2 = match common::catch(|| long_lived.find_by_time_and_resource(bms, ems, res)) {
+                    Err(p) => {
+                        viol = Some((format!("panic/search-by-time/reused-searcher/{}", common::panic_site(&p)), p));
+                        break 'q;
+                    }
+                    Ok(Err(err)) => {
+                        viol = Some(("search-by-time/reused-searcher/error".into(), format!("a searcher that had answered {} queries before: find_by_time_and_resource({bms},{ems},{res:?}) -> {err}", queries - 1)));
+                        break 'q;
+                    }
+                    Ok(Ok(v)) => v,
+                };
+                let gotf2: Vec<Fields> = got2.iter().map(|i| i.verif_fields()).collect();
+                if gotf2 != want {
+                    let ctx = if files_in_order.len() > 1 { "across-files" } else { "single-file" };
+                    viol = Some((
+                        format!("search-by-time/reused-searcher/{}/{ctx}", if gotf2.len() < want.len() { "misses-written-items" } else { "wrong-items" }),
+                        format!("a long-lived searcher (previous queries moved its position cache) find_by_time_and_resource(begin sec {b} (+{}), end sec {e}, {res:?}): got {} items, a fresh searcher and the reference {}; files {:?}", *b as i64 - lo as i64, gotf2.len(), want.len(), files_in_order),
+                    ));
+                    break 'q;
+                }
             }
         }
     }
@@ -343,6 +366,28 @@ fn part_a(case: &Case, dir: &str, rng: &mut Rng) -> (Option<String>, Option<(Str
                     viol = Some((
                         format!("search-max-lines/{kind}/{ctx}"),
                         format!("find_from_time_with_max_lines(begin sec {b} (+{}), {n}): got {} items, {} written at or after it; files {:?}", *b as i64 - lo as i64, gotf.len(), all.len(), files_in_order),
+                    ));
+                    break 'm;
+                }
+                queries += 1;
+                let got2 = match common::catch(|| long_lived.find_from_time_with_max_lines(bms, n)) {
+                    Err(p) => {
+                        viol = Some((format!("panic/search-max-lines/reused-searcher/{}", common::panic_site(&p)), p));
+                        break 'm;
+                    }
+                    Ok(Err(err)) => {
+                        viol = Some(("search-max-lines/reused-searcher/error".into(), format!("long-lived searcher: find_from_time_with_max_lines({bms},{n}) -> {err}")));
+                        break 'm;
+                    }
+                    Ok(Ok(v)) => v,
+                };
+                let gotf2: Vec<Fields> = got2.iter().map(|i| i.verif_fields()).collect();
+                let is_prefix2 = gotf2.len() <= all.len() && gotf2[..] == all[..gotf2.len()];
+                if !is_prefix2 || gotf2.len() < n.min(all.len()) {
+                    let ctx = if files_in_order.len() > 1 { "across-files" } else { "single-file" };
+                    viol = Some((
+                        format!("search-max-lines/reused-searcher/{}/{ctx}", if !is_prefix2 { "not-a-prefix-of-the-written-items" } else { "returns-fewer-lines-than-available" }),
+                        format!("a long-lived searcher find_from_time_with_max_lines(begin sec {b} (+{}), {n}): got {} items, {} written at or after it; files {:?}", *b as i64 - lo as i64, gotf2.len(), all.len(), files_in_order),
                     ));
                     break 'm;
                 }
